@@ -11,6 +11,7 @@ import (
 	"io"
 	"testing"
 
+	"github.com/refraction-networking/conjure/pkg/metrics"
 	"github.com/refraction-networking/conjure/pkg/regserver/regprocessor"
 	pb "github.com/refraction-networking/conjure/proto"
 	log "github.com/sirupsen/logrus"
@@ -33,6 +34,7 @@ type c11DNSProcCase struct {
 type c11DNSEnv struct {
 	procs []*regprocessor.C11Proc
 	lg    *log.Logger
+	fast  *metrics.Metrics // dnsconc only
 }
 
 func c11NewDNSEnv(tb testing.TB) *c11DNSEnv {
